@@ -32,6 +32,7 @@ import (
 	"github.com/aergoio/aergo/v2/consensus/impl/dpos/slot"
 	"github.com/aergoio/aergo/v2/state"
 	"github.com/aergoio/aergo/v2/types"
+	"github.com/aergoio/aergo/v2/types/dbkey"
 	"github.com/libp2p/go-libp2p/core/crypto"
 )
 
@@ -101,10 +102,11 @@ func (t *c08Tx) Commit() {
 func (t *c08Tx) Discard() {}
 
 type c08CDB struct {
-	byNo   map[uint64]*types.Block
-	byHash map[string]*types.Block
-	best   *types.Block
-	kv     map[string][]byte
+	byNo       map[uint64]*types.Block
+	byHash     map[string]*types.Block
+	best       *types.Block
+	kv         map[string][]byte
+	genesisBPs []string // election engine: GetGenesisInfo().BPs
 }
 
 func (c *c08CDB) GetBestBlock() (*types.Block, error) {
@@ -132,8 +134,13 @@ func (c *c08CDB) GetBlock(h []byte) (*types.Block, error) {
 	}
 	return nil, fmt.Errorf("no block")
 }
-func (c *c08CDB) GetGenesisInfo() *types.Genesis { return nil }
-func (c *c08CDB) Get(k []byte) []byte            { return c.kv[string(k)] }
+func (c *c08CDB) GetGenesisInfo() *types.Genesis {
+	if c.genesisBPs == nil {
+		return nil
+	}
+	return &types.Genesis{BPs: c.genesisBPs}
+}
+func (c *c08CDB) Get(k []byte) []byte { return c.kv[string(k)] }
 func (c *c08CDB) NewTx() db.Transaction {
 	return &c08Tx{kv: c.kv, set: map[string][]byte{}}
 }
@@ -158,7 +165,9 @@ type c08World struct {
 	sdb    *state.ChainStateDB
 }
 
-func (w *c08World) newStatus(nd *c08Node) {
+func (w *c08World) newStatus(nd *c08Node) { w.newStatusReset(nd, 0) }
+
+func (w *c08World) newStatusReset(nd *c08Node, resetHeight types.BlockNo) {
 	// NewStatus(c, cdb, sdb, 0) with the BP snapshots detached from the DBs (all heights
 	// are below the bootstrap height, so the producer set is the static cluster).
 	s := &Status{
@@ -166,7 +175,7 @@ func (w *c08World) newStatus(nd *c08Node) {
 		bps:      bp.NewSnapshots(&testCluster{size: nd.n}, nil, nil),
 		sdb:      nd.sdb,
 	}
-	s.init(nd.cdb, 0)
+	s.init(nd.cdb, resetHeight)
 	nd.loader = bsLoader
 	nd.st = s
 	s.libState.bpid = nd.self
@@ -437,6 +446,24 @@ func TestVerifC08Engine(t *testing.T) {
 				o.Res = "restored"
 				if kind == "R" {
 					nodes[geti(1)] = fresh
+				}
+				obs = append(obs, o)
+			case "F":
+				// shadow restart with ForceResetHeight (bootLoader.load(resetHeight)) on a copy of the DB
+				nd := nodes[geti(1)]
+				o := c08Obs{Op: "F", Node: geti(1), NeedReorg: -1, RootNo: -1, Res: "reset"}
+				kv := map[string][]byte{}
+				for k, v := range nd.cdb.kv {
+					kv[k] = v
+				}
+				cdb := &c08CDB{byNo: nd.cdb.byNo, byHash: nd.cdb.byHash, best: nd.cdb.best, kv: kv}
+				fresh := &c08Node{n: nd.n, self: nd.self, cdb: cdb, sdb: nd.sdb}
+				w.newStatusReset(fresh, types.BlockNo(geti(2)))
+				w.observe(fresh, &o)
+				if len(kv[string(dbkey.DposLibStatus())]) > 0 {
+					o.NeedReorg = 1 // saved status kept
+				} else {
+					o.NeedReorg = 0 // deleted
 				}
 				obs = append(obs, o)
 			case "G":
